@@ -28,6 +28,10 @@ type mix struct {
 	Restart bool  `json:"restart"` // restart after populating (flushes everything)
 	Par     int   `json:"par"`     // >0: parallel-delete threshold override
 	Reader  bool  `json:"reader"`  // an OnDelete handler reads the header being deleted (by height and by hash)
+	// Appender: on its first call an OnDelete handler appends a header that is already stored and lies outside the
+	// range (the tail header during a head-side deletion, the head header during a tail-side one) and waits for Sync:
+	// the flush loop runs (advanceHead / recedeTail) in the middle of the deletion
+	Appender bool `json:"appender,omitempty"`
 }
 
 func (m mix) n() int {
@@ -81,6 +85,35 @@ func (e *env) populate(m mix) bool {
 				_, _ = e.st.Get(ctx, g.Hash())
 				_, _ = e.st.Has(ctx, g.Hash())
 			}
+			return nil
+		})
+	}
+	if m.Appender {
+		first := true
+		e.st.OnDelete(func(ctx context.Context, h uint64) error {
+			if !first {
+				return nil
+			}
+			first = false
+			hd, herr := e.st.Head(ctx)
+			tl, terr := e.st.Tail(ctx)
+			if herr != nil || terr != nil {
+				return nil
+			}
+			var x *vh.Header
+			switch {
+			case h > tl.Height():
+				x = tl // head-side deletion: the tail is outside the range
+			case hd.Height() > h:
+				x = hd // tail-side deletion (for a whole-chain deletion the head goes later in the same call)
+			default:
+				return nil
+			}
+			if err := e.st.Append(ctx, x); err != nil {
+				return nil
+			}
+			_ = e.st.Sync(ctx)
+			c.Count("appends_from_inside_a_handler", 1)
 			return nil
 		})
 	}
@@ -260,6 +293,8 @@ func storeMixes(r *mon.Run) []mix {
 	add(mix{Cfg: Cfg{SC: 64, IC: 64, WB: 8, Flavour: "ctx"}, T0: 2, Batches: []int{8, 3}, Par: 4})
 	add(mix{Cfg: Cfg{SC: 64, IC: 64, WB: 4, Flavour: "plain"}, T0: 2, Batches: []int{6, 2}, Reader: true})
 	add(mix{Cfg: Cfg{SC: 8, IC: 8, WB: 1, Flavour: "ctx"}, T0: 1, Batches: []int{7}, Reader: true})
+	add(mix{Cfg: Cfg{SC: 64, IC: 64, WB: 1, Flavour: "plain"}, T0: 2, Batches: []int{7}, Appender: true})
+	add(mix{Cfg: Cfg{SC: 8, IC: 8, WB: 4, Flavour: "ctx"}, T0: 1, Batches: []int{5, 2}, Appender: true})
 	for _, fl := range []string{"plain", "ctx"} {
 		add(mix{Cfg: Cfg{SC: 8, IC: 8, WB: 1, Flavour: fl}, T0: 3, Batches: []int{6}})                   // all flushed
 		add(mix{Cfg: Cfg{SC: 512, IC: 512, WB: 64, Flavour: fl}, T0: 3, Batches: []int{8}})              // nothing flushed
@@ -385,7 +420,7 @@ func c08Pair(c *mon.Case, p c08P) {
 		cancel()
 		synctest.Wait()
 		c.Count("delete_calls", 1)
-		c.Class("%s flavour=%s wb=%d restart=%v par=%d reader=%v %s err=%v", class, p.Mix.Cfg.Flavour, p.Mix.Cfg.WB, p.Mix.Restart, p.Mix.Par, p.Mix.Reader, touchesUnfl, err != nil)
+		c.Class("%s flavour=%s wb=%d restart=%v par=%d reader=%v %s err=%v", class, p.Mix.Cfg.Flavour, p.Mix.Cfg.WB, p.Mix.Restart, p.Mix.Par, p.Mix.Reader || p.Mix.Appender, touchesUnfl, err != nil)
 		if !valid {
 			if err == nil {
 				c.Violation("invalid-range-accepted/"+class, fmt.Sprintf("DeleteRange(%d,%d) with Tail %d Head %d returned nil", p.From, p.To, T, H), nil)
